@@ -9,7 +9,7 @@ Theorem C18_table_frame :
   forall lm lu sdk c o tn n,
     CInv (fun _ => True) c ->
     (match o with
-     | OPut t _ _ _ _ | OUpdate t _ _ _ _ _ _ | ODelete t _ _ _ _ _ | OClearTable t | ODeleteTable t
+     | OPut t _ _ _ _ _ | OUpdate t _ _ _ _ _ _ | ODelete t _ _ _ _ _ | OClearTable t | ODeleteTable t
      | OUpdateTable t _ _ _ | OAddIndex t _ _ _ | OGet t _ _ _ | OQuery t _ _ _ _ _ _ _ _ _ | OScan t _ _ _ _ _ _ _ | ODescribeTable t => t = tn
      | _ => False
      end) ->
